@@ -33,6 +33,9 @@ CV = "cddl::validator::cbor_value"
 PB = "cddl::pest_bridge"
 CB = "cddl::validator::cbor"
 
+_CB_STUBS_FWD = ["alloc::fmt::format -> fresh one-character string (message text never decides a verdict)",
+                 "std::hash::RandomState::new -> fixed state", "dependency stub set (kani/src/stubs.rs), as for the visitor-callback harnesses"]
+
 H = [
     # ------------------------------------------------------------------ C11
     dict(name="c11_l0_pull_head", props=["C11"], tier="quick", cost=35,
@@ -192,6 +195,29 @@ H = [
          bound="announced count n fully symbolic usize ≥ 1, empty reader", stubs=[]),
     dict(name="c05_literal_decoders_total", props=["C05"], tier="quick", cost=60, unit=[PB + "::parse_u64_lit", PB + "::parse_int_lit", PB + "::parse_uint_lit"],
          bound="any ASCII text of 0..=4 symbolic bytes (not only grammar-valid spellings)", stubs=[]),
+    dict(name="c05_cbor_bits_bytes0_total", props=["C05"], tier="quick", cost=25,
+         unit=["<" + CB + "::CBORValidator as Visitor>::visit_value (byte-string arm, control state .bits)", "verif_hooks_state::set_ctrl"],
+         bound="`bstr .bits N`, N over the whole usize range, empty byte-string document; asserts no panic and 'bit number at or beyond the end is rejected' (the crate's reading of .bits itself is not asserted)",
+         stubs=_CB_STUBS_FWD,
+         api=("validate", lambda vals: {"cases": [dict(cddl="x = bstr .bits %d" % int.from_bytes(bytes(vals[0]), "little"), cbor=[0x40])]})),
+    dict(name="c05_cbor_bits_bytes1_total", props=["C05"], tier="quick", cost=25,
+         unit=["<" + CB + "::CBORValidator as Visitor>::visit_value (byte-string arm, control state .bits)", "verif_hooks_state::set_ctrl"],
+         bound="`bstr .bits N`, N over the whole usize range, one symbolic byte as document; asserts no panic and 'bit number at or beyond the end is rejected'",
+         stubs=_CB_STUBS_FWD,
+         api=("validate", lambda vals: {"cases": [dict(cddl="x = bstr .bits %d" % int.from_bytes(bytes(vals[1]), "little"), cbor=[0x41, vals[0][0]])]})),
+    dict(name="c05_alloc_indef_chunk", unreached_because="no verdict after 600 s (3 harnesses in parallel): the indefinite arm of read_bytes recurses into read_bytes and grows the result with extend_from_slice; concrete frame bytes do not help", props=["C05"], tier="unreached", cost=1800,
+         unit=[CV + "::read_bytes::<&[u8]> (indefinite)"],
+         bound="frame 41 xx 5b <8 symbolic length bytes ≥ 1>, nothing following", stubs=[]),
+    dict(name="c11_l3_array_indef_frame4", unreached_because="no verdict after 900 s: on the error path the real code drops the partly built Vec<Value>; CBMC unfolds the recursive drop glue of Value (depth = unwind bound) for every element although decode_item is stubbed", props=["C11"], tier="unreached", cost=1800,
+         unit=[CV + "::decode_array::<&[u8]> (indefinite)"], bound="≤ 4 bytes over {small ints, simple values, one-byte tags, break}", stubs=["decode_item -> contract stub faithful on the alphabet"]),
+    dict(name="c11_l3_array_indef_frame3", unreached_because="no verdict after 420 s at unwind 4 (same drop-glue unfolding)", props=["C11"], tier="unreached", cost=1800,
+         unit=[CV + "::decode_array::<&[u8]> (indefinite)"], bound="≤ 3 bytes over the frame alphabet", stubs=["decode_item -> contract stub"]),
+    dict(name="c11_l3_map_indef_frame4", unreached_because="no verdict after 900 s (drop glue of Vec<(Value, Value)>)", props=["C11"], tier="unreached", cost=1800,
+         unit=[CV + "::decode_map::<&[u8]> (indefinite)"], bound="≤ 4 bytes over the frame alphabet", stubs=["decode_item -> contract stub"]),
+    dict(name="c11_l3_array_def_frame4", unreached_because="no verdict after 900 s (drop glue of Vec<Value>)", props=["C11"], tier="unreached", cost=1800,
+         unit=[CV + "::decode_array::<&[u8]> (definite, k ≤ 2)"], bound="≤ 4 bytes over the frame alphabet", stubs=["decode_item -> contract stub"]),
+    dict(name="c11_l3_map_def_frame4", unreached_because="no verdict after 900 s (drop glue of Vec<(Value, Value)>)", props=["C11"], tier="unreached", cost=1800,
+         unit=[CV + "::decode_map::<&[u8]> (definite, k ≤ 2)"], bound="≤ 4 bytes over the frame alphabet", stubs=["decode_item -> contract stub"]),
 ]
 
 
